@@ -380,13 +380,17 @@ func coreHistory(c *Ctx, d *coreDrv) {
 					if node == "" || c.chance(0.1) {
 						node = s.pickFrom(nodes)
 					}
-					nr := a.res
-					if c.chance(0.5) {
-						nr = s.askRes()
-						a.res = nr
+					if s.bound[k] == "" && c.chance(0.25) {
+						// a new allocation reported on a node the core does not know: must be rejected without any trace
+						emitAndAbsorb(map[string]interface{}{"op": "alloc", "app": a.app, "key": s.newKey("k"), "node": "n-unknown", "res": encRes(s.askRes()), "ph": false, "tg": "", "ctime": 1})
+					} else {
+						nr := a.res
+						if c.chance(0.5) {
+							nr = s.askRes()
+						}
+						emitAndAbsorb(map[string]interface{}{"op": "alloc", "app": a.app, "key": k, "node": node, "res": encRes(nr), "ph": a.ph, "tg": a.tg, "ctime": 1})
+						s.bound[k] = node
 					}
-					emitAndAbsorb(map[string]interface{}{"op": "alloc", "app": a.app, "key": k, "node": node, "res": encRes(nr), "ph": a.ph, "tg": a.tg, "ctime": 1})
-					s.bound[k] = node
 				} else {
 					app := s.pickFrom(apps)
 					key := s.newKey("k")
